@@ -54,6 +54,17 @@ const PROBES: &[&str] = &[
     "als { }",
     "stel één = 1; één + 1",
     "v0 v1 )",
+    // shapes DESIGN.md 4.3 excludes from generated workloads because the documentation does not fix
+    // their meaning - as probes they are welcome: whatever they do in a fresh process (a value, an
+    // error, a bounds-checked panic, a guard-rail stop) they must do after any history and under any
+    // schedule and build. They read slots and stack positions that only left-over state could fill.
+    "stel x = functie f() { x }(); x",
+    "stel a = 1; stel b = functie g() { b }(); [a, b]",
+    "stel g = [functie f() { 1 }, g]; g[1]",
+    "stel x = x;",
+    "als ja { stel a = 1 }",
+    "functie f() { 1 } f(1, 2)",
+    "functie h(a, b, c) { [a, b, c] } h(1)",
 ];
 
 /// The batch: generated programs over one small shared identifier pool, probe programs that use a
